@@ -8,7 +8,7 @@ META_EXCLUDE.add('node_call_id')
 META_EXCLUDE.add('node_sock')
 META_EXCLUDE.add('node_without_result')
 META_EXCLUDE.add('success_channels')
-for _k in ('node_protocol', 'cause', 'effects', 'complete_channels'):
+for _k in ('node_protocol', 'node_error_sent', 'cause', 'effects', 'complete_channels'):
     META_EXCLUDE.add(_k)
 
 
